@@ -370,6 +370,7 @@ def r05g(chk, tt, rid='R05.g'):
 
 def r05h(chk, rid='R05.h'):
     chk.rule(rid, 'the position helpers of the tokenizer, decided by evaluation: has_at(text, pos, s) and suffix_eq(text, pos, s) are evaluated on their syntax trees for all strings over a two-letter alphabet up to length four, every position and every pattern up to length three (the functions only compare characters, so two letters exhaust their behaviour): has_at is exactly text[pos:pos+len(s)] == s and suffix_eq exactly text[pos:] == s')
+    chk.assume('R05.h: has_at and suffix_eq compare characters only, so a two-letter alphabet exhausts their behaviour')
     import itertools
 
     from sa.absint import Evaluator, Raised
